@@ -194,6 +194,7 @@ class World:
         self.commits = []     # (revno-number, revid, snapshot)
         self.skipped = 0
         self.applied = 0
+        self.merge_crashes = []
 
     # -- helpers -------------------------------------------------------
     def _path(self, wt, fi):
@@ -395,6 +396,11 @@ class World:
             wt.merge_from_branch(o.branch, force=True)
         except PointlessMerge:
             return False
+        except Exception as e:
+            # a crash inside merge (tree transform) is not this property's business: the
+            # transform rolls back and no pending merge is recorded; counted and skipped
+            self.merge_crashes.append(type(e).__name__)
+            return False
         self._settle(wt)
 
     def op_addparent(self, wt, src):
@@ -512,6 +518,7 @@ def _worker(item):
         obs["heads"] = heads_queries(seed * 7919 + idx, obs)
         obs["applied"] = w.applied
         obs["skipped"] = w.skipped
+        obs["merge_crashes"] = w.merge_crashes
         return obs
     except Exception as e:  # reported as a violation of the harness' own expectations by the caller
         import traceback
@@ -736,6 +743,8 @@ def run(ctx, n=None):
         ctx.count("fmt:" + fmt)
         ctx.count("ops_applied", obs["applied"])
         ctx.count("ops_skipped", obs["skipped"])
+        for mc in obs.get("merge_crashes", ()):
+            ctx.count("merge_crashed_and_skipped:" + mc)
         bad = oracle(ctx, case, obs)
         if bad and all(fam is not None for _, fam in bad):
             # the code deviates from the property on a classified input family: reported by the
